@@ -59,6 +59,27 @@ CONFIG = {
         "rule": "random histories of public-API calls (10 leaf kinds, at, with_span, multiple, flatten, clone, into_iter, add_sibling_alts) as stack programs of 1..28 ops; a case is non-trivial when some resulting error has len >= 2; distinct by case text",
         "assumptions": ["spans are opaque byte ranges; syn::Error conversion observed through syn::Error::into_iter"],
     },
+    "C06": {
+        "lean_modules": ["Darling.Props.C06"],
+        "streams": [
+            {"name": "c06", "n": {"quick": 5000, "thorough": 100000}, "trivial": lambda case, ans: False},
+            {"name": "c10", "n": {"quick": 1000, "thorough": 1000}, "trivial": lambda case, ans: False},
+        ],
+        # a derive that panics, returns nothing, or mixes an impl with diagnostics violates C06 by itself
+        "impl_judge": lambda case, ans: ("derive did not return exactly one impl block or only diagnostics: " + ans[:60]) if not (ans == "(impl)" or ans.startswith("(errors (s")) else None,
+        "rule": "c06: random declarations x 6 derives: every data shape (unit / newtype / n-tuple / named structs, enums with 0..4 mixed variants, unions), generics, container / variant / field options in any order and attribute split with ~20% unknown, malformed or conflicting options, malformed attribute bodies (#[darling], #[darling = x], #[darling(\"lit\")], missing commas, brace / bracket delimiters, stray punctuation), magic field names, identifiers fragile under ident_case; c10: the exhaustive pair stream of C10; every answer is also judged directly: exactly one impl of the requested trait, or one or more compile_error! rows — anything else (panic, nothing, both) is a violation; distinct by case text",
+        "assumptions": ["syn's verdict on string literals inside options and strsim scores are oracle rows", "token content of malformed attributes is covered as far as the chaos grammar's forms"],
+        "partial": "token content of attribute bodies beyond the chaos grammar is not enumerated",
+    },
+    "C10": {
+        "lean_modules": ["Darling.Props.C10"],
+        "streams": [
+            {"name": "c10", "n": {"quick": 1000, "thorough": 200000}, "trivial": lambda case, ans: False},
+            {"name": "c06", "n": {"quick": 3000, "thorough": 50000}, "trivial": lambda case, ans: False},
+        ],
+        "rule": "c10: exhaustive — every single field option, every ordered pair of the 12 field option spellings in both attribute splits (thorough: every ordered triple in all 4 splits) x 6 derives, plus 33 hand-picked declarations for the body rules (two / three flatten fields, word rules, from_word rules, attrs without forward_attrs, FromAttributes without attributes, shape words incl. repeated prefixes and multi-segment words, unions, empty enums, n-tuple structs and variants, forwarded-field options); c06: the random chaos stream; compared: impl vs diagnostics, every message and span; distinct by case text",
+        "assumptions": ["syn's verdict on string literals inside options and strsim scores are oracle rows"],
+    },
     "C09": {
         "lean_modules": ["Darling.Props.C09"],
         "streams": [
